@@ -75,3 +75,10 @@ Proof.
   rewrite (tok_py_int 1 s) by (change (10 ^ Z.of_nat 2) with 100; lia || cbn; lia).
   cbn [bind]. rewrite ljust6_frac by assumption. reflexivity.
 Qed.
+
+Lemma trunc_us_range k us : 0 <= us < 1000000 -> 0 <= trunc_us k us <= 999999.
+Proof.
+  intros H. unfold trunc_us. destruct (6 <=? k)%nat; [lia|].
+  assert (Hp : 0 < 10 ^ Z.of_nat (6 - k)) by (apply Z.pow_pos_nonneg; lia).
+  pose proof (Z.mul_div_le us _ Hp). pose proof (Z.div_pos us _ (proj1 H) Hp). nia.
+Qed.
